@@ -283,6 +283,11 @@ impl Default for ServerCfg {
 impl Server {
   /// start `searchlite_http::run` on a free loopback port and wait until it accepts
   pub fn start(index: &Path, cfg: &ServerCfg) -> Result<Server, String> {
+    // Ports are picked by binding port 0 and releasing it; serialise server start-up inside this
+    // process so that two cases can never be handed the same port (a case must not talk to
+    // another case's server).
+    static START: std::sync::Mutex<()> = std::sync::Mutex::new(());
+    let _starting = START.lock().unwrap_or_else(|e| e.into_inner());
     let mut last = String::new();
     for _attempt in 0..8 {
       let port = {
